@@ -115,6 +115,8 @@ func c06Harness(x *mc.Exec) {
 	ci := 1 + x.All("container", len(containers)-1)
 	c := containers[ci]
 	rec := gen.ChooseRecord(x, true)
+	shape := gen.ChooseShape(x, rec)
+	x.Note("shape", shape)
 	lay := containerLayout(x)
 	s := x.Choose("surroundings", c.nSurround)
 	// reference: the bare TIFF of the same payload
@@ -140,6 +142,15 @@ func c06Harness(x *mc.Exec) {
 			// directory) necessarily orders them differently from a single TIFF block.
 			// The statement does not define a precedence, so this observable is not compared.
 			ign["CameraSerial"] = true
+		}
+	}
+	if shape != "" && c.name == "CR3" {
+		// A field written in an exotic shape may be present but undecodable.  Where two fields feed one
+		// observable (ImageWidth / PixelXDimension, Artist / CameraOwnerName, serial numbers, FNumber /
+		// ApertureValue) the winner then depends on the order in which the directories are met, and the
+		// CR3 embedding necessarily orders them differently from a single TIFF block: not compared.
+		for _, o := range []string{"ImageWidth", "ImageHeight", "Artist", "CameraSerial", "FNumber"} {
+			ign[o] = true
 		}
 	}
 	for _, ep := range c.entries {
@@ -191,6 +202,7 @@ func c07Harness(x *mc.Exec) {
 	c := containers[ci]
 	full := x.All("base-record", 2) == 0
 	rec := gen.ChooseRecord(x, full)
+	x.Note("shape", gen.ChooseShape(x, rec))
 	lay := gen.CanonicalLayout()
 	if full {
 		lay = containerLayout(x)
